@@ -419,6 +419,8 @@ class Exec:
             try:
                 self.failures.extend(self.check(self, info) or [])
             except Exception as e:
+                if type(e).__name__ == "CaseTimeout":
+                    raise          # core's per-case alarm: not an observation
                 import traceback
                 self.failures.append({"clause": "observation-raises", "expected": "the element API works on the tree",
                                       "observed": exc_name(e), "step": info["i"], "op": info.get("op"),
@@ -426,6 +428,8 @@ class Exec:
         try:
             v = self.view(self, info)
         except Exception as e:
+            if type(e).__name__ == "CaseTimeout":
+                raise
             v = {"view_raises": exc_name(e)}
         if self.nav_errors:
             self.failures.append({"clause": "children-navigable", "expected": "element.children iterates",
